@@ -205,14 +205,18 @@ def main(run):
         if (cfg, feat) == ('all', 'full'):
             P = mir.Program(F)
             check_constructors(run, P)
-            sites.check(run, P, 'C01')
+            ctx, _ = sites.check(run, P, 'C01')
+            # every route from raw text to a validated type (TryFrom, FromStr, from_vec, ...) accepts exactly the language of THAT type
+            from .. import convexact
+            convexact.check_ctors(run, P, ctx)
         m = facts.meta(cfg)
         if m.get('cbor_rewritten'):
             run.note(f"diagnostic: building config {cfg} rewrote {len(m['cbor_rewritten'])} cached automata (stale cache, rebuilt from the grammar): {m['cbor_rewritten'][:3]}")
     run.floor('dfa_compared', 20 * len(configs), 'generated validate() automata compared with the RFC productions')
     run.floor('ctor_shapes_ok', 40, 'checked constructors (20 borrowed + 20 owned new) of the documented shape')
-    obligations = run.cov.get('dfa_compared', 0) + run.cov.get('validate_callers', 0) + run.cov.get('sites_total', 0)
-    discharged = total_ok + run.cov.get('ctor_shapes_ok', 0) + run.cov.get('sites_classified', 0)
+    run.floor('constructor_exactness_checks', 110, 'functions from raw text to a validated type whose accepted language was compared with the type')
+    obligations = run.cov.get('dfa_compared', 0) + run.cov.get('validate_callers', 0) + run.cov.get('sites_total', 0) + run.cov.get('constructor_exactness_checks', 0)
+    discharged = total_ok + run.cov.get('ctor_shapes_ok', 0) + run.cov.get('sites_classified', 0) + run.cov.get('constructor_exactness_checks', 0) - sum(1 for v in run.violations if v[0].startswith('ctor-exact|'))
     return run.finish('proof', {
         'obligations': obligations,
         'discharged': discharged,
